@@ -123,6 +123,34 @@ theorem starred_prints_nothing (st : St) (tag : String) (c : Name) (level : Int)
     step st (.construct tag c true level) = .ok { st with outs := ⟨tag, none⟩ :: st.outs } := by
   simp [step, numbered, stepOwn, capture]
 
+/-- Any number of starred / unnumbered objects (the rows of an `eqnarray*`, `\section*` …) is invisible to the
+    numbering: after such a history every counter, every `\the…` macro and the list state are what they were, and the
+    history printed one empty entry per object.  So the objects that follow are numbered as if it had not been there. -/
+theorem starred_history_is_invisible : ∀ (evs : List Ev) (st st' : St),
+    (∀ e ∈ evs, ∃ tag c level, e = .construct tag c true level) → run st evs = .ok st' →
+    st'.store = st.store ∧ st'.thes = st.thes ∧ st'.depth = st.depth ∧ st'.envs = st.envs ∧
+    ∃ news, st'.outs = news ++ st.outs ∧ news.length = evs.length ∧ ∀ o ∈ news, o.ref = none := by
+  intro evs
+  induction evs with
+  | nil =>
+    intro st st' _ h
+    simp only [run, Except.ok.injEq] at h; subst h
+    exact ⟨rfl, rfl, rfl, rfl, [], rfl, rfl, fun _ h => by cases h⟩
+  | cons e es ih =>
+    intro st st' hall h
+    obtain ⟨tag, c, level, rfl⟩ := hall e List.mem_cons_self
+    simp only [run, starred_prints_nothing] at h
+    obtain ⟨h1, h2, h3, h4, news, h5, h6, h7⟩ := ih _ st' (fun e he => hall e (List.mem_cons_of_mem _ he)) h
+    refine ⟨h1, h2, h3, h4, news ++ [⟨tag, none⟩], by rw [h5]; simp, by simp [h6], ?_⟩
+    intro o ho
+    rcases List.mem_append.mp ho with ho | ho
+    · exact h7 o ho
+    · simp only [List.mem_singleton] at ho; subst ho; rfl
+
+example : ((run (initSt articleCounters articleThes 2) [.construct "srow" "equation" true 1001,
+      .construct "srow" "equation" true 1001, .eqnBegin, .eqRow]).toOption.map (·.outs.reverse.map (·.ref))) =
+    some [none, none, some "1", some "2"] := by decide +kernel
+
 /-- `\item[label]` prints nothing and does not count. -/
 theorem labelled_item_does_not_count (st : St) (tag : String) :
     step st (.item tag true) = .ok { st with outs := ⟨tag, none⟩ :: st.outs } := by
@@ -406,16 +434,17 @@ example : splitFormat "$part-${ a.Roman }${x.}" = [.ref "part" none, .lit "-", .
   decide +kernel
 
 /-- **The format lexer reads back what was spelled.**  For every well-formed list of items (any length; names and
-    representations non-empty words, literal text non-empty, `$`-free and not split in two) the two regex passes of
+    representations non-empty words, names non-empty `\csname`-style names such as `main-thm`, literal text non-empty,
+    `$`-free and not split in two) the two regex passes of
     `TheCounter.invoke`, as modelled by `splitFormat`, turn the spelled format `${name}` / `${name.repr}` / text
     into exactly those items: no reference is missed, none invented, no character of the literal text lost. -/
 theorem format_lexer_roundtrip (items : List FItem) (h : wfItems items = true) :
     splitFormat (String.ofList (renderFormat items)) = items.map FItem.toPiece :=
   PlasVerif.Proofs.Lexer.split_render items h
 
-example : wfItems [.ref "thesection".toList none, .text ".".toList, .ref "subsection".toList (some "Roman".toList)] = true ∧
-    String.ofList (renderFormat [.ref "thesection".toList none, .text ".".toList, .ref "subsection".toList (some "Roman".toList)])
-      = "${thesection}.${subsection.Roman}" := by decide +kernel
+example : wfItems [.ref "thesection".toList none, .text ".".toList, .ref "main-thm".toList (some "Roman".toList)] = true ∧
+    String.ofList (renderFormat [.ref "thesection".toList none, .text ".".toList, .ref "main-thm".toList (some "Roman".toList)])
+      = "${thesection}.${main-thm.Roman}" := by decide +kernel
 
 /-! ## entry points a user calls directly -/
 
